@@ -451,6 +451,10 @@ func rawPattern(p, n int) []byte {
 			b[i] = 0xFF
 		}
 		set(0x7F)
+	default: // thorough tier: every byte value repeated
+		for i := range b {
+			b[i] = byte(p - len(rawPatternNames)) //nolint:gosec
+		}
 	}
 
 	return b
@@ -570,7 +574,8 @@ func specByName(specs []attrSpec, name string) *attrSpec {
 }
 
 // TestC11Attrs: for each of the 11 attributes (1) every raw value of length
-// 0..64 over a 12-pattern content alphabet (EVEN-PORT: all 256 first bytes),
+// 0..64 over a 12-pattern content alphabet (thorough: plus each of the 256
+// byte values repeated; EVEN-PORT always: all 256 first bytes),
 // built both with stun.Message.Add and from harness-encoded bytes, decoded
 // into a fresh and into a used target; (2) typed round trips over the whole
 // value domain where it is small (all 65536 channel numbers, 256 protocols,
@@ -586,6 +591,10 @@ func TestC11Attrs(t *testing.T) {
 	specs := attrSpecs()
 	describe := func() any { return a.cur }
 	tx0 := txIDs[2]
+	nPatterns := len(rawPatternNames)
+	if rep.Thorough() {
+		nPatterns += 256 // plus every single byte value repeated
+	}
 
 	// (1) raw values, sharded by length.
 	sweep(r, "GetFrom(raw value)", shard, 65, nshards, describe, func(n int) bool {
@@ -596,7 +605,7 @@ func TestC11Attrs(t *testing.T) {
 				txs = txIDs
 			}
 			for _, tx := range txs {
-				for p := range rawPatternNames {
+				for p := range nPatterns {
 					a.raw(s, rawPattern(p, n), tx)
 				}
 			}
@@ -664,7 +673,7 @@ func TestC11Attrs(t *testing.T) {
 	sTok := specByName(specs, "reservation-token")
 	sData := specByName(specs, "data")
 	sweep(r, "ReservationToken/Data.AddTo/GetFrom", shard, 65, nshards, describe, func(n int) bool {
-		for p := range rawPatternNames {
+		for p := range nPatterns {
 			v := rawPattern(p, n)
 			a.roundTrip(sTok, tx0, hex.EncodeToString(v), n == 8, proto.ReservationToken(v).AddTo)
 			a.roundTrip(sData, tx0, hex.EncodeToString(v), true, proto.Data(v).AddTo)
